@@ -123,6 +123,33 @@ fn doc(members: &[(String, String)]) -> String {
     format!("{{{}}}", members.iter().map(|(k, v)| format!("{}:{v}", serde_json::to_string(k).unwrap())).collect::<Vec<_>>().join(","))
 }
 
+/// The same document with the envelope's member names spelled with JSON escapes (`"\u006dethod"` is the
+/// member `method`; encoders that escape everything outside ASCII spell `extraMembér` as `extraMemb\u00e9r`).
+/// style 1: the first character of every name, 2: every character, 3: only characters outside ASCII.
+fn doc_spelled(members: &[(String, String)], style: usize) -> String {
+    let name = |k: &str| -> String {
+        let mut out = String::from("\"");
+        for (i, c) in k.chars().enumerate() {
+            let esc = match style {
+                1 => i == 0,
+                2 => true,
+                _ => !c.is_ascii(),
+            };
+            if esc {
+                let mut b = [0u16; 2];
+                for u in c.encode_utf16(&mut b) {
+                    out.push_str(&format!("\\u{:04x}", u));
+                }
+            } else {
+                out.push(c);
+            }
+        }
+        out.push('"');
+        out
+    };
+    format!("{{{}}}", members.iter().map(|(k, v)| format!("{}:{v}", name(k))).collect::<Vec<_>>().join(","))
+}
+
 /// (b) decode: every permutation of the envelope members x flag states; flags read back exactly,
 /// method equal to decoding the same object without the flags.
 fn decode_matrix<'a, M>(rep: &mut Report, name: &str, base: &[(&str, &str)], extra: bool, decode_call: &dyn Fn(&[u8]) -> Result<(String, bool, bool, bool), String>, decode_plain: &dyn Fn(&[u8]) -> Result<String, String>, cfg: &Cfg, rng: &mut Rng)
@@ -144,7 +171,7 @@ where
             }
         }
         if extra {
-            members.push(("extraMember".into(), "{\"x\":[1,2]}".into()));
+            members.push((if states % 2 == 0 { "extraMember" } else { "extraMemb\u{e9}r" }.into(), "{\"x\":[1,2]}".into()));
         }
         let plain: Vec<(String, String)> = members.iter().filter(|(k, _)| !["oneway", "more", "upgrade"].contains(&k.as_str())).cloned().collect();
         let mut perms: Vec<Vec<(String, String)>> = Vec::new();
@@ -157,8 +184,18 @@ where
             rng.shuffle(&mut perms);
             perms.truncate(40);
         }
-        for p in perms {
-            let d = doc(&p);
+        let nperms = perms.len();
+        for (pi, p) in perms.into_iter().enumerate() {
+          // as is, and once more with the member names of the envelope spelled with escapes
+          for spelling in [0usize, 1 + (pi + states) % 3] {
+            if spelling != 0 && cfg.layer == "miri" && pi % 2 == 1 {
+                continue;
+            }
+            let _ = nperms;
+            let d = if spelling == 0 { doc(&p) } else { doc_spelled(&p, spelling) };
+            if spelling != 0 {
+                rep.count("call_documents_with_escaped_member_names");
+            }
             rep.eval(vnet::fnv(format!("{name}{d}").as_bytes()));
             let replay = json!({"monitor": "c05", "part": "call-decode", "method_type": name, "doc": d});
             let want_m = decode_plain(doc(&plain).as_bytes());
@@ -177,8 +214,9 @@ where
                 }
                 (Err(_), Err(_)) => rep.count("call_decodings_refused_like_the_method_type"),
                 (Ok((m, ..)), Err(e)) => rep.violation("C05/call-decodes-although-the-method-type-refuses-its-members", format!("{name}: {d}: Call gives {m}, method type alone: {e}"), replay),
-                (Err(e), Ok(wm)) => rep.violation("C05/call-not-decoded-although-the-method-type-accepts-its-members", format!("{name}: {d}: {e}; method type alone gives {wm}"), replay),
+                (Err(e), Ok(wm)) => rep.violation(if spelling == 0 { "C05/call-not-decoded-although-the-method-type-accepts-its-members" } else { "C05/call-with-escaped-member-names-not-decoded" }, format!("{name}: {d}: {e}; method type alone gives {wm}"), replay),
             }
+          }
         }
     }
 }
